@@ -2,10 +2,10 @@
 from . import common, l1, l1cases, recipes
 
 SPEC = {
-    "lean": ["SnowModel.Props.C06", "SnowModel.Props.L1Bridge"],
+    "lean": ["SnowModel.Props.C06", "SnowModel.Props.C06L2", "SnowModel.Props.L1Bridge"],
     "pins": ["Runtime", "ObjectRows", "ObjectModel"],
-    "technique": "Lean 4 theorems on the name registry of the L1 machine (persistent bindings survive every op sequence incl. save/load; lookup after a boundary yields the original row) + pinned skip rule `just_once and continuing` + trace correspondence + direct oracle on generated just_once layouts x iteration counts x continuation splits",
-    "level_text": "Machine-checked proof that a just_once row's nickname and table-name bindings persist through any further history (iterations, continuation save/load) that does not create another just_once row under the same name, that after every boundary a lookup yields that row with its original table and id, and that it is shadowed only by same-name rows of the current iteration; the rule that a just_once template executes only when not `continuing` is pinned from the AST and exercised by the differential (rows per just_once template in the concatenated output == its count, all in iteration 0 of run 0).",
+    "technique": "Lean 4 theorems on the name registry of the L1 machine (persistent bindings survive every op sequence incl. save/load; lookup after a boundary yields the original row) + L2 theorems on the reference interpreter: after the first iteration of a dataset every run (later iterations, continued runs of any chain) equals the run of the recipe with its just_once templates removed; a table written only by top-level just_once templates gets all its rows in that first iteration; just_once friends never run + pinned skip rule `just_once and continuing` + trace correspondence + direct oracle on generated just_once layouts x iteration counts x continuation splits",
+    "level_text": "Machine-checked proof that a just_once row's nickname and table-name bindings persist through any further history (iterations, continuation save/load) that does not create another just_once row under the same name, that after every boundary a lookup yields that row with its original table and id, and that it is shadowed only by same-name rows of the current iteration; for every recipe of the reference interpreter, every fuel, chain and finalSave: after the first iteration the run is exactly the run of the recipe without its just_once templates (`chain_first_then_dropOnce`, `justOnce_rows_only_first_iteration`, `justOnce_table_only_first_iteration`), and a just_once friend is never executed (`friends_justOnce_never_run`); the rule that a just_once template executes only when not `continuing` is pinned from the AST and exercised by the differential (rows per just_once template in the concatenated output == its count, all in iteration 0 of run 0).",
     "level_note": "Trusted: Lean kernel, py2lean, trace wrappers. Field values of the persisted rows after a continuation are C05's subject; the L2 differential (C03/C04) compares them value for value.",
     "assumptions": [],
 }
